@@ -17,6 +17,7 @@ full statement whenever a letter pair never scores less than its two letters aga
 (`noAdj_suffices`, `nwAffine_opt_of_side_condition`).
 -/
 import Biogo.Proofs.NWAffine
+import Biogo.Proofs.SWAffine
 import Biogo.Proofs.NoAdjSuffices
 
 namespace Biogo.Properties.C08_aff
@@ -32,6 +33,28 @@ theorem globalOpt_optimal (cross : Bool) (S : Matrix) (gapOpen : Int) (r q : Lis
     (∀ x, globalOpt cross S gapOpen r q = some x →
         ∃ a, IsGlobal a r q ∧ (cross = true ∨ NoAdj a) ∧ scoreAff S gapOpen a = x) := by
   have h := globalOpt_isOpt cross S gapOpen r q
+  exact ⟨fun a hg hc => h.1 a ⟨hg, hc⟩, fun x hx => let ⟨a, ha, e⟩ := h.2 x hx; ⟨a, ha.1, ha.2, e⟩⟩
+
+/-- the yardstick for the local aligners: `localOpt cross` is the maximum of the affine score
+    over all local alignments (`cross`) / those without adjacent opposite gaps, the empty
+    alignment (score 0) included -/
+theorem localOpt_optimal (cross : Bool) (S : Matrix) (gapOpen : Int) (r q : List Nat) :
+    (∀ a, IsLocal a r q → (cross = true ∨ NoAdj a) →
+        ∃ x, localOpt cross S gapOpen r q = some x ∧ scoreAff S gapOpen a ≤ x) ∧
+    (∀ x, localOpt cross S gapOpen r q = some x →
+        ∃ a, IsLocal a r q ∧ (cross = true ∨ NoAdj a) ∧ scoreAff S gapOpen a = x) := by
+  have h := localOpt_isOpt cross S gapOpen r q
+  exact ⟨fun a hg hc => h.1 a ⟨hg, hc⟩, fun x hx => let ⟨a, ha, e⟩ := h.2 x hx; ⟨a, ha.1, ha.2, e⟩⟩
+
+/-- the yardstick for the fitted aligners: `fittedOpt cross … e` is the maximum of the affine
+    score over the alignments of the whole query with a reference segment ending at `e` -/
+theorem fittedOpt_optimal (cross : Bool) (S : Matrix) (gapOpen : Int) (r q : List Nat) (e : Nat)
+    (he : e ≤ r.length) :
+    (∀ a, IsFitted a r q e → (cross = true ∨ NoAdj a) →
+        ∃ x, fittedOpt cross S gapOpen r q e = some x ∧ scoreAff S gapOpen a ≤ x) ∧
+    (∀ x, fittedOpt cross S gapOpen r q e = some x →
+        ∃ a, IsFitted a r q e ∧ (cross = true ∨ NoAdj a) ∧ scoreAff S gapOpen a = x) := by
+  have h := fittedOpt_isOpt cross S gapOpen r q e he
   exact ⟨fun a hg hc => h.1 a ⟨hg, hc⟩, fun x hx => let ⟨a, ha, e⟩ := h.2 x hx; ⟨a, ha.1, ha.2, e⟩⟩
 
 /-- **C08, NWAffine, the part that holds** (`_partial`: the maximum is over the global
@@ -54,6 +77,23 @@ theorem nwAffine_opt_partial (S : Matrix) (gapOpen : Int) (r q : List Nat) (hr :
     rcases hn with hn | hn
     · cases hn
     · exact ⟨a, hg, hn, by omega⟩
+
+/-- **C08, SWAffine, the part that holds** (`_partial`: maximum over the local alignments
+    without adjacent opposite gaps — K1 — "zero if none is positive" being the empty
+    alignment).  For all matrices with non-positive gap scores, every gap-open ≤ 0 and all
+    sequences the model of `SWAffine` (after fix F11) returns pairs whose total bounds every
+    such alignment and is attained by one. -/
+theorem swAffine_opt_partial (S : Matrix) (gapOpen : Int) (ho : gapOpen ≤ 0)
+    (hg : ∀ x, S x 0 ≤ 0 ∧ S 0 x ≤ 0) (r q : List Nat) :
+    ∃ ps, swAlign S gapOpen r q = .ok ps ∧
+      (∀ a, IsLocal a r q → NoAdj a → scoreAff S gapOpen a ≤ total ps) ∧
+      (∃ a, IsLocal a r q ∧ NoAdj a ∧ scoreAff S gapOpen a = total ps) :=
+  Biogo.Proofs.SWAffine.swAlign_total S gapOpen ho hg r q
+
+/-- non-vacuity: the F11 witness (`aa` / `aca`, match 7, gap-vs-c 0, gap-open −2) now gives 12 -/
+example : swAlign (sc [[0, -1, 0], [-1, 7, -3], [-1, -3, 7]]) (-2) [1, 1] [1, 2, 1] =
+    .ok [⟨0, 1, 0, 1, 7⟩, ⟨1, 1, 1, 2, -2⟩, ⟨1, 2, 2, 3, 7⟩] := by
+  decide +kernel
 
 /-- non-vacuity: the K1 witness itself -/
 example : nwAlign (sc [[0, 0, 0], [-2, 1, -10], [-2, -10, 1]]) (-2) [1] [2] = .ok [⟨0, 1, 0, 1, -10⟩] := by
